@@ -765,7 +765,10 @@ fn ff_check(c: &FfCase, loc: &mut Loc) -> Result<(), (String, String)> {
 }
 
 fn run_ff(rep: &Report) {
-    let t = rep.tier;
+    // both tiers use the deep alphabets (seconds); the thorough tier additionally applies every
+    // corruption class to every target
+    let deep = rep.tier == Tier::Thorough;
+    let t = Tier::Thorough;
     let env = drive::env();
     let pk = env.valid_keys.iter().next().unwrap().clone();
     let mut all = bases(t, &pk);
@@ -798,7 +801,7 @@ fn run_ff(rep: &Report) {
                 // seeds: the whole corruption catalogue on every target; quick: the whole catalogue on
                 // every third target; thorough: the coin-side classes on every target, the (target
                 // independent) solution- and puzzle-side classes on every fourth target
-                let full = seed || (t == Tier::Quick && (bi + ti) % 3 == 0) || (t == Tier::Thorough && (bi + ti) % 4 == 0);
+                let full = seed || deep || (bi + ti) % 4 == 0;
                 if full || t == Tier::Thorough {
                     let cs = corruptions(&g, &b.parts, full);
                     classes = classes.max(cs.len() as u64);
@@ -1092,7 +1095,7 @@ fn eligibility_violation(sc: &Scene, l: &[usize]) -> Option<&'static str> {
 }
 
 fn run_dedup(rep: &Report) {
-    let t = rep.tier;
+    let t = Tier::Thorough;
     let env = drive::env();
     let pk = env.valid_keys.iter().next().unwrap().clone();
     let mut total_lists = 0u64;
@@ -1212,7 +1215,7 @@ fn run_dedup(rep: &Report) {
 
 fn run(rep: &Report) {
     rep.set_rule(
-        "fast-forward: singleton spends = the real top layer curried (own curry) with launcher id {a1 | thorough +a2} x inner puzzle {`1` with the conditions in the inner solution (re-creates itself), (q . conds)} x 10-13 condition sets (odd CREATE_COIN of the coin amount / of 1, + even output, + time locks, + AGG_SIG_ME/UNSAFE, + memo/REMARK/announcements, + inner ASSERT_MY_AMOUNT / _PUZZLEHASH / _COIN_ID / _PARENT_ID, melt -113, no output, two odd outputs) x coin amount {1,3,2^63+1 | thorough +0x81,2^64-1} x lineage (parent's parent {c1 | thorough +c2} x parent amount {1,3,2^63+1}), plus the 2 recorded ff-tests/*.spend; rebase targets = new parent's parent {ab..,00..,ff..,the original one} x new parent amount x new coin amount ({1,3,2^63+1} quick, {1,3,0x81,2^64-1} thorough, {own,1,3,5} for the recorded spends); every genuine (spend,target) pair is also put through 36 corruption classes (each field of the three coins, each lineage/solution field, Eve proof, struct mod hash, curried program, launcher id/hash, inner puzzle, arity, bare inner puzzle; plain and 're-seated' = all dependent hashes re-derived so that exactly one relation is broken) — quick: all classes on every third target, thorough: the 16 coin-side classes on every target and the 20 solution/puzzle-side classes on every fourth target. dedup: one coin (identity puzzle, parent 11.., amount {0,2,300}) next to a helper spend of 10^6 mojos {no conditions, sends a message to the coin, receives a message from it}; condition lists = every list of <=2 of the 79 letters plus every list of 3 of the 67 main letters (quick: of the 24 core letters); letters: CREATE_COIN with hint absent/nil/empty/4 zero bytes/one byte 01 (= a following REMARK's image)/32/33 bytes/pair/atom memos/extra memo, amount|hint atom-boundary splits ([0102][03] vs [01][0203]), second puzzle hash, extra argument, redundant zero; RESERVE_FEE/REMARK boundary splits and REMARK shapes; announcements; ASSERT_MY_*; every time lock with two values and tautologies; all 8 AGG_SIG_*; SEND/RECEIVE_MESSAGE to self and to/from the helper; unknown / SOFTFORK / two-byte opcodes; each list run with and without COMPUTE_FINGERPRINT. distinct = distinct (class, puzzle, solution, three coins) fast-forward cases + distinct (scene, fingerprint) groups of eligible spends",
+        "fast-forward: singleton spends = the real top layer curried (own curry) with launcher id {a1 | thorough +a2} x inner puzzle {`1` with the conditions in the inner solution (re-creates itself), (q . conds)} x 10-13 condition sets (odd CREATE_COIN of the coin amount / of 1, + even output, + time locks, + AGG_SIG_ME/UNSAFE, + memo/REMARK/announcements, + inner ASSERT_MY_AMOUNT / _PUZZLEHASH / _COIN_ID / _PARENT_ID, melt -113, no output, two odd outputs) x coin amount {1,3,2^63+1 | thorough +0x81,2^64-1} x lineage (parent's parent {c1 | thorough +c2} x parent amount {1,3,2^63+1}), plus the 2 recorded ff-tests/*.spend; rebase targets = new parent's parent {ab..,00..,ff..,the original one} x new parent amount x new coin amount ({1,3,2^63+1} quick, {1,3,0x81,2^64-1} thorough, {own,1,3,5} for the recorded spends); every genuine (spend,target) pair is also put through 36 corruption classes (each field of the three coins, each lineage/solution field, Eve proof, struct mod hash, curried program, launcher id/hash, inner puzzle, arity, bare inner puzzle; plain and 're-seated' = all dependent hashes re-derived so that exactly one relation is broken) — quick: the 16 coin-side classes on every target and the 20 solution/puzzle-side classes on every fourth target, thorough: all classes on every target; the alphabets marked 'thorough' are used by both tiers. dedup: one coin (identity puzzle, parent 11.., amount {0,2,300}) next to a helper spend of 10^6 mojos {no conditions, sends a message to the coin, receives a message from it}; condition lists = every list of <=2 of the 79 letters plus every list of 3 of the 67 main letters (quick: of the 24 core letters); letters: CREATE_COIN with hint absent/nil/empty/4 zero bytes/one byte 01 (= a following REMARK's image)/32/33 bytes/pair/atom memos/extra memo, amount|hint atom-boundary splits ([0102][03] vs [01][0203]), second puzzle hash, extra argument, redundant zero; RESERVE_FEE/REMARK boundary splits and REMARK shapes; announcements; ASSERT_MY_*; every time lock with two values and tautologies; all 8 AGG_SIG_*; SEND/RECEIVE_MESSAGE to self and to/from the helper; unknown / SOFTFORK / two-byte opcodes; each list run with and without COMPUTE_FINGERPRINT. distinct = distinct (class, puzzle, solution, three coins) fast-forward cases + distinct (scene, fingerprint) groups of eligible spends",
     );
     rep.assume("fast_forward_singleton does not run the puzzle: for constructed spends whose original does not run (no odd output, two odd outputs) only acceptance/refusal and the shape of the rewrite are checked");
     rep.assume("run_spendbundle acceptance of the rewritten spend is demanded only when the original is accepted on the old coin and every ASSERT_MY_* of the rewritten output holds for the new coin (inner conditions bound to the old coin are the business of ELIGIBLE_FOR_FF, not of the rewrite); two funding spends of 2^64-1 mojos each are added so that value conservation cannot reject");
